@@ -30,9 +30,9 @@ func vpPayload() []byte {
 	// besides the short fully symbolic payloads: concrete lengths around the
 	// VarInt boundaries of the frame / data length fields and beyond the initial
 	// capacity of the pooled buffer, with symbolic first and last byte
-	long := []int{60, 120, 127}
+	long := []int{60, 123, 126, 127} // 123..126 bytes plus a 2..5-byte id cross the one-byte frame length
 	if vp.Tier() == 1 {
-		long = []int{60, 115, 120, 126, 127, 128, 16382, 16383}
+		long = []int{60, 115, 120, 123, 126, 127, 128, 16382, 16383}
 	}
 	k := vp.Choice(max + 1 + len(long))
 	if k <= max {
